@@ -1564,7 +1564,11 @@ parse_citation:
 					print_const("\\footnote{");
 					temp_note = stack_peek_index(scratch->used_footnotes, temp_short - 1);
 
-					mmd_export_token_tree_latex(out, source, temp_note->content, scratch);
+					// A note is not expanded again inside its own expansion
+					temp_token = temp_note->content;
+					temp_note->content = NULL;
+					mmd_export_token_tree_latex(out, source, temp_token, scratch);
+					temp_note->content = temp_token;
 					print_const("}");
 				} else {
 					// This is the first time this note was used
@@ -1572,7 +1576,11 @@ parse_citation:
 					temp_note = stack_peek_index(scratch->used_footnotes, temp_short - 1);
 					// Reset padding counter in case of multiple footnotes in single paragraph
 					scratch->padded = 2;
-					mmd_export_token_tree_latex(out, source, temp_note->content, scratch);
+					// A note is not expanded again inside its own expansion
+					temp_token = temp_note->content;
+					temp_note->content = NULL;
+					mmd_export_token_tree_latex(out, source, temp_token, scratch);
+					temp_note->content = temp_token;
 					print_const("}");
 				}
 			} else {
